@@ -66,6 +66,37 @@ def search(payload):
     res["failures"] = (res["failures"] + big["failures"])[:10]
     res["known_hits"] += [h for h in big["known_hits"] if not h.get("witness")]
     res["big_parameter_evaluations"] = big["evaluations"]
+    # HISTORY: the same small trees again and again in this process, same-shaped trees that differ in one constant one after the other
+    # (-1 / -2 hash alike), atoms SHARED between successive calls (an optimizer that edits a set in place changes the next tree)
+    from predicate.standard_predicates import eq_p, ge_p, gt_p, le_p, lt_p, ne_p
+    from predicate.set_predicates import in_p, not_in_p
+    listed = oc.load_listed("C02") or {}
+    fam = [t for t, f in zip(trees, family) if f]
+    tpl = [t for t in fam[:: max(1, len(fam) // 170)] if oc.skey(t) not in listed]         # (the listed failing members are left to the family search)
+    for c in (-2, -1, 0, 1, 2, 3):
+        tpl += [ge_p(c) & le_p(3), in_p(c, 5) | eq_p(7), lt_p(c) | ge_p(3), gt_p(c) & ne_p(3), not_in_p(c, 4) & ge_p(-3), eq_p(c) | eq_p(c + 10)]
+    pts = gen.SCALAR_VALUES + [-1.5, -2, -1, -3, 7, 11, 12]
+    shared = {"blocked": not_in_p(1, 2, 3), "allowed": in_p(1, 2, 3, 4), "low": le_p(3)}
+    fresh = {"blocked": lambda: not_in_p(1, 2, 3), "allowed": lambda: in_p(1, 2, 3, 4), "low": lambda: le_p(3)}
+
+    def shared_call(build):
+        def th():
+            q = oc.optimize(build(shared))
+            ref = build({k: f() for k, f in fresh.items()})          # the same expression over fresh atoms: what the user wrote
+            d = oc.first_difference_pair(ref, q, pts, False)
+            if d is None:
+                return None
+            return {"p": repr(ref), "p_structure": oc.skey(ref), "optimized": repr(q), "x": repr(d[0]), "original_answer": repr(d[1]), "optimized_answer": repr(d[2]),
+                    "note": "the atoms of this tree are objects that earlier optimize() calls of this process have also seen (shared by the caller)"}
+        return th
+    builds = [("in_p(1, 5) | blocked", lambda a: in_p(1, 5) | a["blocked"]), ("blocked & ge_p(0)", lambda a: a["blocked"] & ge_p(0)), ("allowed & not_in_p(3, 4, 5)", lambda a: a["allowed"] & not_in_p(3, 4, 5)),
+              ("allowed | eq_p(7)", lambda a: a["allowed"] | eq_p(7)), ("in_p(3, 9) & allowed", lambda a: in_p(3, 9) & a["allowed"]), ("blocked | in_p(2, 8)", lambda a: a["blocked"] | in_p(2, 8)),
+              ("low & ge_p(0)", lambda a: a["low"] & ge_p(0)), ("low | gt_p(10)", lambda a: a["low"] | gt_p(10)), ("~blocked | allowed", lambda a: ~a["blocked"] | a["allowed"])]
+    extra = [(f"optimize({lb})  [blocked = not_in_p(1, 2, 3), allowed = in_p(1, 2, 3, 4), low = le_p(3): the caller's own objects, used in every such call]", shared_call(b)) for lb, b in builds]
+    n, hfails = oc.history_search("C02", payload, tpl, pts, assignments=False, extra_calls=extra, vetted=True)
+    res["evaluations"] += n
+    res["history_calls"] = n
+    res["failures"] = (res["failures"] + hfails)[:10]
     return res
 
 
